@@ -182,11 +182,11 @@ def _al_pre(ctx):
     if not sr["entries"]:
         REC.skip("align", "empty-reference")
         return SKIP
-    return (s, name, D, sr)
+    return (s, name, D, sr, list(tg._tierDict.values()))
 
 
 def _al_post(ctx):
-    s, name, D, sr = ctx.pre
+    s, name, D, sr, held = ctx.pre
     refs = timestamps_of(sr)
     close_pair = any(F(b) - F(a) < F(D) * (1 + BAND) for a, b in zip(refs, refs[1:]))
     case = {"call": "align", "tg": s, "name": name, "D": D}
@@ -224,6 +224,14 @@ def _al_post(ctx):
         ok, msg, _ = judge_dejitter(ts, refs, D, res.getTier(ts["name"]), None)
         if not ok:
             REC.violation(PROP, "align", "alignBoundariesAcrossTiers", case, "tier %r: %s" % (ts["name"], msg), sig, mech)
+            return
+    # dejitter "returns the modified version of the current tier": the tier OBJECTS that were in the textgrid (a caller may hold
+    # them, another textgrid may contain them) are as they were; the adjusted tiers are new ones
+    for ts, obj in zip(s["tiers"], held):
+        now = snap.tier_snap(obj)
+        if now != ts:
+            REC.violation(PROP, "align", "alignBoundariesAcrossTiers", case, "the tier object %r that was in the textgrid was rewritten in place: %r -> %r" % (ts["name"], ts["entries"], now["entries"]),
+                          sig, dict(mech, in_place=True))
             return
     REC.held("align", sig, "C14:align:reference-untouched", case)
 
@@ -378,10 +386,10 @@ def workload(tier, rng, shard, nshards, work):
     # objects that carry a history (mutated in place, or produced by earlier operations): the monitors judge every call made on them
     import contextlib as _cl
     import io as _io
-    from workloads.histories import run_histories
+    from workloads.histories import run_histories, RefusedEditFrame
 
     with _cl.redirect_stdout(_io.StringIO()):
-        run_histories(rng, (300 if tier == "quick" else 8000) // nshards)
+        run_histories(rng, (300 if tier == "quick" else 8000) // nshards, observer=RefusedEditFrame(PROP))
 
 
 def _workload(tier, rng, shard, nshards):
